@@ -64,6 +64,11 @@ def rule_posmap_ctor(ctx, rule, ctor, adt, roles):
               "stored `%s` = %s but the maps come from %s — the rank map and the generator would use "
               "different k" % (roles["ksize"], show(k) if k else "<missing>", [show(c) for c in calls]),
               line_of(lit))
+    kk = list(calls)[0][2] if len(calls) == 1 else None
+    ctx.check(rule, "%s.%s:is_the_argument" % (adt, roles["ksize"]), kk is not None and is_param(fv, kk, "ksize"),
+              "the maps are built for the constructor's own `ksize` argument",
+              "the maps are built for `%s`, not for the `ksize` the caller asked for (clamped / adjusted): the vector has "
+              "the columns of another k" % (show(kk) if kk else "?"), line_of(lit))
     return fv
 
 
